@@ -52,6 +52,15 @@ def configs(tier):
   mid.append((p, dict(driver='MultiplexIterator', srcs=[2, 2], par=2, stop=1)))
   mid.append((p, dict(driver='MultiplexIterator', srcs=[1, 2], par=2, fail=[0, 0])))
   mid.append((p, dict(driver='MultiplexIterator', srcs=[2, 1], par=1, fail=[0, 1])))
+  # a shared input whose __next__ is not atomic (read-modify-write cursor):
+  # the workers of one input must exclude each other
+  for buf in (0, 1):
+    mid.append((p, dict(driver='piter_fn', srcs=[3], buf=buf, workers=2, par=2,
+                        src='cursor')))
+    mid.append((p, dict(driver='pmap', srcs=[3], buf=buf, workers=None, par=2,
+                        src='cursor')))
+  mid.append((p, dict(driver='MultiplexIterator', srcs=[3], par=2, fn=True,
+                      src='cursor')))
   # more helpers: free switches at blocking points only (bound 0) / bound 1
   big.append((p, dict(driver='piter', srcs=[1, 1], buf=1, workers=3, par=1, fn=True)))
   big.append((p, dict(driver='piter', srcs=[1, 1], buf=0, workers=4, par=2, fn=True)))
